@@ -122,8 +122,12 @@ class Comparer(object):
         self.gen = 0
         self.guards = []
         self.visited_pre = set()
+        self.ignore = ()
 
     def goal(self, name, g):
+        for pre in self.ignore:
+            if name.startswith(pre):
+                return
         if self.guards:
             g = mk_implies(mk_and(*self.guards), g)
         if g is True:
@@ -444,6 +448,7 @@ def run_path(prog, registry, contract, body_q, case_build, prefix, shared, modul
     res.used_specs = set(ipA.used_specs) | set(ipB.used_specs)
     res.inlined = set(ipA.inlined) | set(ipB.inlined)
     cmp = Comparer(stA, stB, ntok0, noid0, names)
+    cmp.ignore = tuple((opts or {}).get('ignore', ()))
     if outA.kind != outB.kind:
         cmp.mismatch('outcome', 'code %s%s, contract %s%s' % (
             outA.kind, ' ' + outA.value if outA.kind == 'raise' else 's',
